@@ -822,7 +822,7 @@ func init() {
 		ID:    "C11",
 		Level: "model_checking",
 		Rule: cliStreamRule[1:] + " " + "subprocess-mode exploration of the goalign binary instrumented from the current tree: for each of the listed command scenarios (every documented command family, 1-3 flag sets each, on small nucleotide / protein / multi-Phylip / malformed-second-alignment inputs) x seeds {1,7} (randomised commands; shuffle seqs and sample sites also 0, -2, -1234567890123, build seqboot and mutate snvs also -2: every seed but the documented -1 replays) x --threads {1,2,3,16} (threaded commands; distances of a 7-row alignment with 3, 4 and 5 threads: more rows than workers, neither the rows nor the rows less one a multiple of the workers): the default execution, then EVERY execution within 2 (quick) / 3 (thorough) deviations from it when run with one thread, 2 deviations with 2 threads and 1 deviation with 3 and 16 threads (both tiers) — a deviation is one scheduling decision other than the default (keep the running goroutine, else the lowest runnable id) at a channel/mutex/WaitGroup/spawn operation, one non-sorted iteration order at a ranged map, or one clock step at time.Now — must give exactly the bytes (stdout, exit status, every file written) of the default one-thread execution, end normally, and show no data race (vector clocks). " +
-			"Reformat chains: ALL format sequences of <=3 conversions among fasta/phylip/nexus/clustal that return to the starting format, on 8 inputs (one whose names hold multi-byte UTF-8 characters, one that fits no alphabet as a whole, one with '?', '*' and lower case, one whose names are NEXUS keywords but for their case), must return the starting bytes; build distboot == build seqboot + compute distance for 9 models (6 nucleotide, 3 protein on a gapped protein alignment) x {no flag, -r, --alpha 0.7, both} x 2 seeds, and x partial bootstrap -f 0.5, 0.25. Each scenario also runs on the uninstrumented binary and on the instrumented binary in pass-through mode (must agree), and a second time in the directory that holds the output files of a first run (must give what a run in an empty directory gives). states/transitions = nodes/edges of the choice trees; distinct_nontrivial = distinct (scenario, seed, threads, choice list) executions compared.",
+			"Reformat chains: ALL format sequences of <=3 conversions among fasta/phylip/nexus/clustal that return to the starting format, on 8 inputs (one whose names hold multi-byte UTF-8 characters, one that fits no alphabet as a whole, one with '?', '*' and lower case, one whose names are NEXUS keywords but for their case), must return the starting bytes; build distboot == build seqboot + compute distance for 9 models (6 nucleotide, 3 protein on a gapped protein alignment) x {no flag, -r, --alpha 0.7, both} x 2 seeds, and x partial bootstrap -f 0.5, 0.25. Free-running complement: goalign built with the race detector runs every threaded scenario with 4 threads (reports of the detector are violations). Each scenario also runs on the uninstrumented binary and on the instrumented binary in pass-through mode (must agree), and a second time in the directory that holds the output files of a first run (must give what a run in an empty directory gives). states/transitions = nodes/edges of the choice trees; distinct_nontrivial = distinct (scenario, seed, threads, choice list) executions compared.",
 		Assumptions: []string{
 			"scheduling points only at synchronisation operations (channel, mutex, WaitGroup, go); data races are reported separately by vector clocks",
 			"stderr is not compared (log lines); dependencies (cobra, gzip, xz, tar) are not instrumented: they spawn no goroutines and range over no maps on these paths",
@@ -951,6 +951,32 @@ func init() {
 			default:
 				c.Fatal("unrecognised payload")
 			}
+		},
+		// free-running complement: goalign built with the race detector runs every threaded scenario with 4 threads
+		Post: func(m *mc.Master) {
+			dir, err := os.MkdirTemp(m.Scratch, "c11-race-")
+			if err != nil || os.MkdirAll(filepath.Join(dir, "in"), 0o755) != nil {
+				return
+			}
+			var runs [][]string
+			for _, sc := range c11Scenarios() {
+				if !sc.Threads {
+					continue
+				}
+				var args []string
+				for _, a := range sc.Args {
+					if strings.HasPrefix(a, "@") {
+						os.WriteFile(filepath.Join(dir, "in", a[1:]), []byte(c11Files[a[1:]]), 0o644)
+						a = "in/" + a[1:]
+					}
+					args = append(args, a)
+				}
+				if sc.Seeded {
+					args = append(args, "--seed", "1")
+				}
+				runs = append(runs, append(args, "-t", "4"))
+			}
+			m.RacePassCLI(dir, runs)
 		},
 		Vacuity: func(tier string, t *mc.Totals) error {
 			if t.Extra["runs_instrumented"] < 20000 || t.Extra["trees"] < 100 {
